@@ -33,6 +33,21 @@ const (
 // generator collects things in (gombok packages with >= 2 source files: go/packages parses
 // them concurrently; extra packages with competing @fp.ImportGiven packages or several
 // source files) are cheap (one gombok run each) and get more process starts.
+func repeatsOf(tier string, sp extraSpec) int {
+	if sp.Ambiguous {
+		// units that offer the generator a choice: one cheap gombok run each, so R >= 12 in every tier
+		if tier == "thorough" {
+			return 24
+		}
+		return 12
+	}
+	if sp.Kind == "phase" {
+		// first generation, second run on top, and at least one more first generation from scratch
+		return max(4, repeats(tier, false))
+	}
+	return repeats(tier, sp.OrderSensitive)
+}
+
 func repeats(tier string, orderSensitive bool) int {
 	switch {
 	case tier == "thorough" && orderSensitive:
@@ -64,14 +79,18 @@ func main() {
 		Cases: func(tier string, b int) int {
 			switch {
 			case b < nG:
-				return repeats(tier, sh.Plan.Groups[b].OrderSensitive())
+				g := sh.Plan.Groups[b]
+				if g.Gombok {
+					return repeats(tier, g.OrderSensitive()) + 1 // + the from-scratch pass
+				}
+				return repeats(tier, g.OrderSensitive())
 			case b == nG:
 				if tier == "thorough" {
 					return 2
 				}
 				return 1
 			default:
-				return repeats(tier, extraSpecs(tier)[b-nG-1].OrderSensitive)
+				return repeatsOf(tier, extraSpecs(tier)[b-nG-1])
 			}
 		},
 		Run: func(w *vrt.W) {
@@ -94,7 +113,8 @@ func main() {
 			"Units: (a) every directory of the repository that carries //go:generate directives (its directives run in go-generate order): pass 0 on the pristine copy with every file's mtime set to the epoch = FIXPOINT (whole scratch tree byte-identical to the snapshot afterwards) + ORPHANS (every file of that directory with a `// Code generated … DO NOT EDIT.` header before its package clause was rewritten; if not, all other directives are run before it is called an orphan); pass 1 on top of the regenerated tree = IDEMPOTENCE; passes 2..R-1 on a restored pristine copy = DETERMINISM (whole tree byte-identical to pass 0's result); " +
 			"(b) one global unit: generated-header files in directories without directive (orphans), directives whose command is not one of the three generators (reported as skipped), and in the thorough tier a literal serial `go generate ./...`-ordered double pass over ONE scratch tree; " +
 			"(c) extra gombok input packages synthesised from the case PRNG inside the repository copy: wide @fp.Value/@fp.Json/@fp.GenLabelled structs with 10-40 tagged fields and @fp.Derive of eq/show/js.Encoder/js.Decoder/read/hash; a fixed shop package (external module with a replace directive) with eq/ord/hash/show/clone/monoid derives, @fp.Generate template and adaptor; GIVEN units: 2-4 instance packages that all offer applicable instances for the same type class and type (EqDuration/EqMonth/OrdDuration/OrdMonth/ShowDuration/ShowMonth by name, fp.Eq/fp.Show[time.Weekday] only by type, vars and funcs), imported through permuted @fp.ImportGiven directives spread over 2-3 source files, two units with instance packages that share one package name (import alias numbering); MULTI units: 3-5 source files with 6-10 tagged structs (@fp.Value/@fp.Getter/@fp.With/@fp.String/@fp.Builder/@fp.AllArgsConstructor/@fp.GenLabelled/@fp.Json, struct names in an order contradicting the file names, many struct tags), generic structs instantiated several times, field types from two packages both called `shape` and one called `option`, 30-40 @fp.Derive directives spread over the files (also for types of other files, two recursive=true ones that derive the same instances on demand), three @fp.Generate templates in different files two of which write one output file. Pass 0 from the clean input, odd passes on top of the generated files, even passes from the clean input again, all byte-identical to pass 0. " +
-			"Repeats R: 2 (thorough 12) per unit; 8 (thorough 24) for ORDER-SENSITIVE units = gombok directories of the repository with >= 2 hand-written source files (go/packages parses the files of a package concurrently) and the GIVEN/MULTI units. " +
+			"PHASE units (c13phase1..3): one package in which a directive of one phase consumes the output of another phase of the SAME run - an @fp.Generate template declares structs that @fp.Derive directives (plain and recursive=true) derive instances for; @fp.Value output (Unapply / Builder / String) that on-demand derivations and show.Given need, a hand-written instance whose initialiser calls a derived instance function, an @fp.Generate adaptor over an interface that mentions value types; an @fp.Value struct whose field types come from the template (known finding) - pass 0 is a FIRST GENERATION FROM SCRATCH (no generated file exists), pass 1 runs on top of it and must change nothing (one run reaches the fixpoint), later passes alternate. The same from-scratch demand is made of every gombok directory of the repository: after the determinism passes one more pass deletes every file the directory's directives write and ONE run must reproduce the committed files (key <generator>/<dir>/first-generation-not-fixpoint). AMBIG units (c13ambig1..3): inputs that leave the generator a choice - Monoid over bool fields (monoid.All / monoid.Any, neither found by name), a derive package of the unit's own with 2-3 static instances of one type under names no lookup rule produces, an @fp.ImportGiven package with an instance found by name next to instances found by type only - which one is taken is recorded, not judged; all process starts must agree. " +
+			"Repeats R: 2 (thorough 12) per unit (PHASE units at least 4; AMBIG units 12, thorough 24); 8 (thorough 24) for ORDER-SENSITIVE units = gombok directories of the repository with >= 2 hand-written source files (go/packages parses the files of a package concurrently) and the GIVEN/MULTI units. " +
 			"distinct_nontrivial counts distinct directives (repository directives by dir/file/line, extra packages by name) that wrote at least one file in some pass.",
 		Assumptions: []string{
 			"the generators are run as prebuilt binaries (basename = generator name) instead of `go run`; go generate's $GOARCH/$GOOS/$GOFILE/$GOLINE/$GOPACKAGE/$DOLLAR/$PWD are reproduced, the `go` tool on PATH is the same",
@@ -102,6 +122,7 @@ func main() {
 			"one snapshot of the working tree is taken at start; generators are built from it and all comparisons are against it (a concurrent edit of the working tree is reported as a note, not judged)",
 			"running each directory's directives on its own pristine copy is equivalent to one serial pass for the fixpoint verdict (the first directive of a serial pass that changes a file has seen an unchanged tree); the thorough tier also runs the literal serial pass",
 			"map-iteration order is re-randomised per process start; R runs sample it, they do not enumerate it",
+			"first generation from scratch: established on the unchanged tree for each of the 15 gombok directories of the repository (clone, show, statet, test/internal/{adaptortest, clonetest, docexample, gendebug, js, read, recursive, showorder, showtest, testjson, testpk1, testpk2}): deleting every file their directives write and running the directives ONCE reproduces the committed files - no exception had to be listed (worker.go fromScratchExceptions is empty); a directory added later whose hand-written code cannot be loaded without its generated files would have to be listed there",
 		},
 		Floors: func(tier string) map[string]int64 {
 			f := map[string]int64{"generator_runs": 1, "files_compared": 1, "orphan_checks": 1, "directives_with_output": 1,
@@ -110,7 +131,12 @@ func main() {
 				"import_given.contested_instance_resolved_to_one_package": 12,
 				"order_sensitive.repeated_runs":                           7 * int64(repeats(tier, true)-1),
 				"order_sensitive.repository_directories":                  1,
-				"runs_gomaxprocs_1":                                       10, "runs_gomaxprocs_2": 10, "runs_gomaxprocs_4": 10, "runs_gomaxprocs_16": 10}
+				"runs_gomaxprocs_1":                                       10, "runs_gomaxprocs_2": 10, "runs_gomaxprocs_4": 10, "runs_gomaxprocs_16": 10,
+				// phase units: a second run on top of the first generation and a repeated first generation each; the
+				// repository's gombok directories were regenerated from scratch; the ambiguous units were repeated >= 11 times
+				"extra_units_with_output.phase": 3, "phase.second_run_on_top_of_first_generation": 3, "phase.repeated_first_generations_from_scratch": 3,
+				"from_scratch.passes": 10, "from_scratch.generated_files_deleted": 15,
+				"extra_units_with_output.ambig": 3, "ambig.choices_observed": 6, "ambiguous.repeated_runs": 3 * int64(repeatsOf(tier, extraSpec{Ambiguous: true})-1)}
 			return f
 		},
 		Finish: func(tier string, m *vrt.Merged, cov map[string]any) {
